@@ -192,3 +192,42 @@ CMPOP_TOKEN = {
     ast.Is: "is", ast.IsNot: "is not", ast.In: "in", ast.NotIn: "not in",
 }
 UNARY_TOKEN = {ast.USub: "-", ast.UAdd: "+", ast.Invert: "~", ast.Not: "not"}
+
+
+def has_fragments(fn, patterns) -> list:
+    """Which of `patterns` do NOT occur in the normalised source of fn.
+
+    Patterns are source fragments in which `{P1}`, `{P2}`... stand for the function's parameters (self excluded)
+    and `{L}` for any local name, so the match is invariant under renaming of parameters and locals.
+    Whitespace is normalised by ast.unparse.
+    """
+    import re
+    text = src(fn)
+    ps = params(fn)
+    if ps and ps[0] in ("self", "cls"):
+        ps = ps[1:]
+    if getattr(fn.args, "vararg", None):
+        ps = ps + [fn.args.vararg.arg]
+    missing = []
+    for pat in patterns:
+        rx = re.escape(pat)
+        for i, p in enumerate(ps, 1):
+            rx = rx.replace(re.escape("{P%d}" % i), re.escape(p))
+        rx = rx.replace(re.escape("{L}"), r"[A-Za-z_]\w*")
+        if not re.search(rx, text):
+            missing.append(pat)
+    return missing
+
+
+def alpha(node) -> str:
+    """source of `node` with local names renamed canonically (order of first appearance); builtins and self kept"""
+    import builtins, copy
+    keep = set(dir(builtins)) | {"self", "np", "re", "cls"}
+    node = copy.deepcopy(node)
+    mapping = {}
+    for n in walk_ordered(node):
+        if isinstance(n, ast.Name) and n.id not in keep:
+            if n.id not in mapping:
+                mapping[n.id] = f"v{len(mapping)}"
+            n.id = mapping[n.id]
+    return src(node)
